@@ -17,7 +17,10 @@ use crate::core::*;
 use crate::execs::*;
 
 /// (text, detached)
-pub const SNIPPETS: [(&str, bool); 45] = [
+pub const SNIPPETS: [(&str, bool); 47] = [
+    // the test case installs its own EXIT trap (scrut carries the state in an EXIT trap of its own)
+    ("trap 'true' EXIT; export T=1", false),
+    ("set -o pipefail", false),
     // errexit: the state carrier itself must survive it (its own pipelines may legitimately return non-zero)
     ("set -e", false),
     ("set +e", false),
@@ -72,14 +75,14 @@ pub const SNIPPETS: [(&str, bool); 45] = [
     ("Y=\"${Y:-}+\"; export Y", false),
 ];
 
-pub const PROBE: &str = r#"declare -p X Y Z arr m n IFS TMPFILE LANG_CODE code HOME OLDPWD R 2>/dev/null || true
+pub const PROBE: &str = r#"declare -p X Y Z arr m n IFS TMPFILE LANG_CODE code HOME OLDPWD R T 2>/dev/null || true
 declare -f af || true
 af 2>/dev/null || true
 declare -f f || true
 declare -f xg || true
 xg a 2>/dev/null || true
 alias g 2>/dev/null || true
-set +o | grep -E ' (noclobber|nounset|noglob|errexit)$'
+set +o | grep -E ' (noclobber|nounset|noglob|errexit|pipefail)$'
 shopt -p extglob nullglob || true
 echo "PWD=$PWD"
 dirs -l -p
